@@ -663,9 +663,19 @@ class SymDim:
     __radd__ = __add__
     def __sub__(self, o): return self.poly() - lift(o)
     def __rsub__(self, o): return lift(o) - self.poly()
-    def __floordiv__(self, o): return SymDim(f"({self.name}//{getattr(o, 'name', o)})")
+    def _derived(self, o, sym, fn):
+        """extent computed from extents: a named extent whose polynomial value is remembered (see axis_extent)"""
+        nm = f"({self.name}{sym}{getattr(o, 'name', o)})"
+        try:
+            eo = axis_extent(o.name) if isinstance(o, SymDim) else lift(o)
+            AXIS_EXTENT.setdefault(nm, fn(axis_extent(self.name), eo))
+        except Exception:
+            pass
+        return SymDim(nm)
+
+    def __floordiv__(self, o): return self._derived(o, '//', lambda a, b: a // b)
     def __mod__(self, o): return Poly.const(0) if isinstance(o, SymDim) else SymDim(f"({self.name}%{o})")
-    def __mul__(self, o): return SymDim(f"({self.name}*{getattr(o, 'name', o)})")
+    def __mul__(self, o): return self._derived(o, '*', lambda a, b: a * b)
     __rmul__ = __mul__
     def __eq__(self, o):
         if isinstance(o, SymDim): return o.name == self.name
@@ -859,6 +869,8 @@ class AT:
         for i in np.ndindex(self.data.shape):
             d |= self.data[i].deps()
         return d
+
+    dtype = 'float'          # element types are immaterial to the abstraction
 
     def squeeze(self, axis=None): return jnp_squeeze(self, axis)
     def flatten(self): return jnp_reshape(self, (-1,))
@@ -1325,6 +1337,24 @@ def jnp_reshape(a, shape):
             tgt.append(s.name)
         else:
             tgt.append(s)
+    # two adjacent named axes (A, C) merged into one axis of extent |A| * |C| (A major): a repetition of the rows of A when the
+    # tensor is constant along C (broadcast_to + reshape == repeat), a tiling when it is constant along A, a product otherwise
+    core_t = [x for x in tgt if x != 1]
+    if len(core_t) == len(src) - 1:
+        for k in range(len(src) - 1):
+            A, C = src[k], src[k + 1]
+            if isinstance(A, str) and isinstance(C, str) and k < len(core_t) and isinstance(core_t[k], str) \
+                    and core_t[:k] == src[:k] and core_t[k + 1:] == src[k + 2:] \
+                    and axis_extent(core_t[k]) == axis_extent(A) * axis_extent(C):
+                deps = a.deps()
+                if C not in deps:
+                    merged = f"Rep({A},{C})"
+                elif A not in deps:
+                    merged = f"Tile({C},{A})"
+                else:
+                    merged = f"Prod({A},{C})"
+                new_axes = [merged if x == core_t[k] and i == tgt.index(core_t[k]) else x for i, x in enumerate(tgt)]
+                return AT(tuple(new_axes), a.data.reshape(tuple(x for x in new_axes if isinstance(x, int))))
     if -1 in tgt:
         if tgt == [-1]:
             if len(src) == 1:
@@ -1362,6 +1392,14 @@ def jnp_reshape(a, shape):
     return AT(tuple(tgt), a.data.reshape(tuple(x for x in tgt if isinstance(x, int))))
 
 
+AXIS_EXTENT = {}      # name of a count axis -> the polynomial it was named after
+
+
+def axis_extent(name):
+    """extent of a named axis as a polynomial"""
+    return AXIS_EXTENT.get(name, Poly.atom(('K', name)))
+
+
 def _as_count(r):
     """a repetition count: int, extent of a named axis, or a symbolic count n (-> extent of the axis named n)"""
     if isinstance(r, SymDim):
@@ -1369,8 +1407,9 @@ def _as_count(r):
     if isinstance(r, AT) and r.axes == ():
         r = r.data[()]
     if isinstance(r, Sym):
-        return SymDim(str(Poly.atom(('S', r))))
+        r = Poly.atom(('S', r))
     if isinstance(r, Poly) and not r.is_const():
+        AXIS_EXTENT.setdefault(str(r), r)
         return SymDim(str(r))
     return _dim(r)
 
@@ -1472,6 +1511,7 @@ def shape_axes(shape):
         if isinstance(s, Sym):
             s = Poly.atom(('S', s))
         if isinstance(s, Poly) and not s.is_const():
+            AXIS_EXTENT.setdefault(str(s), s)
             axes.append(str(s))
             continue
         axes.append(_dim(s))
